@@ -75,10 +75,28 @@ def scan_sources():
     return hits
 
 
+class _BuildLock:
+    """several checks may run at once (16 cores): `lake build` and the audit are serialised through a lock file, so that
+    concurrent runs never write the same build products at the same time"""
+
+    def __enter__(self):
+        import fcntl
+        os.makedirs(os.path.join(LEAN, ".lake"), exist_ok=True)
+        self.fp = open(os.path.join(LEAN, ".lake", "verif-build.lock"), "w")
+        fcntl.flock(self.fp, fcntl.LOCK_EX)
+        return self
+
+    def __exit__(self, *a):
+        import fcntl
+        fcntl.flock(self.fp, fcntl.LOCK_UN)
+        self.fp.close()
+
+
 def build():
     """returns (ok, log)"""
     env = dict(os.environ)
-    r = subprocess.run(["lake", "build", "AptMirror", "amdriver"], cwd=LEAN, capture_output=True, text=True, env=env)
+    with _BuildLock():
+        r = subprocess.run(["lake", "build", "AptMirror", "amdriver"], cwd=LEAN, capture_output=True, text=True, env=env)
     return r.returncode == 0, r.stdout + r.stderr
 
 
@@ -94,7 +112,16 @@ def audit():
                 return c["rows"], c["scan"], ""
         except Exception:
             pass
-    r = subprocess.run(["lake", "env", "lean", "AptMirror/Audit.lean"], cwd=LEAN, capture_output=True, text=True)
+    with _BuildLock():
+        if os.path.exists(cache):   # another run may have produced it while this one waited
+            try:
+                with open(cache) as fp:
+                    c = json.load(fp)
+                if c.get("digest") == dg:
+                    return c["rows"], c["scan"], ""
+            except Exception:
+                pass
+        r = subprocess.run(["lake", "env", "lean", "AptMirror/Audit.lean"], cwd=LEAN, capture_output=True, text=True)
     rows = {}
     for line in r.stdout.splitlines():
         m = re.match(r"AUDIT (\S+) (\S+) \[(.*)\]$", line)
